@@ -257,6 +257,8 @@ RConv(v) == CASE Bug = "limit" -> IF v > 8000 THEN -1 ELSE v
               [] Bug = "noLimit" -> v
               [] OTHER -> P!Conv(v)
 
+\* the dispatcher dispatches a data packet: Log._new_packet_cb -> unpack_log_data -> data_received_cb ->
+\* Multiranger._data_received sets the properties / SyncLogger._log_callback queues the sample
 DispData ==
     /\ inq # <<>> /\ Head(inq).t = "data" /\ ~pendstart
     /\ LET d == Head(inq)
@@ -267,8 +269,8 @@ DispData ==
           /\ syncq' = IF Mode = "estimator" /\ mine /\ scb THEN Append(syncq, d.vals) ELSE syncq
           /\ Emit([E0 EXCEPT !.e = "data", !.id = d.id, !.vals = d.vals,
                              !.read = (IF Mode = "ranger" THEN nv ELSE <<>>)])
-    /\ UNCHANGED <<toc, pcpend, sconn, scb, discpend, lccf, rate, haskalman, script, pc, op, excbody, rres, si, bid, ladded, pendstart, window, pq, pinfl, t1,
-                   now, dblk, link, ndata>>
+    /\ UNCHANGED <<toc, pcpend, scb, discpend, sconn, lccf, rate, haskalman, script, pc, op, excbody, rres, si, bid, ladded,
+                   pendstart, window, pq, pinfl, t1, now, dblk, link, ndata>>
 
 \* ---- environment --------------------------------------------------------------------------
 EmitData(v) ==
